@@ -341,6 +341,9 @@ LAST_OP_MAPS["squeeze"] = _reverse_squeeze
 
 
 def _reverse_to_module(self, args, kwargs, out):
+    # the swap goes back into the tensordict the call was made on, whatever
+    # destination the forward call was given
+    kwargs = {key: val for key, val in kwargs.items() if key != "swap_dest"}
     try:
         with (
             out.unlock_()
